@@ -3,6 +3,7 @@ published rule, independently of the tools), damage helpers"""
 import os
 import random
 
+import common
 import ecc_util as eu
 from ecc_util import Params
 
@@ -126,6 +127,14 @@ def within_capacity_damage(rng, P, tree, data, only_files=None):
             continue
         tl, _tot = track_layout(P, len(tree[p]))
         t0 = f["track"][0]
+        if e - t0 != _tot:
+            # the track generated by the real tool is not the concatenation of hash+parity over the published partition of the file:
+            # no block can be located in it (and correction, which follows the rule, cannot either)
+            raise common.PropertyFailure({
+                "input": {"params": P.describe(), "file": p, "size": len(tree[p]), "content": bytes(tree[p]).hex()[:4000]},
+                "impl": {"generated_track_length": e - t0}, "required": {"track_length": _tot},
+                "what": "the ecc track generated for an undamaged file does not have the length the block layout rule gives "
+                        "(hash + parity for every block of the partition): generation and correction disagree on the layout"})
         for (off, ln, k), ho, po, pl in tl:
             if rng.random() < 0.4:
                 continue
